@@ -276,7 +276,8 @@ impl Context {
                         let int_indices: Vec<i32> = indices.try_cast()?;
                         address_offset_of_element(v_arr, &int_indices)
                     }
-                    _ => panic!("Expected array"),
+                    // the DIM or REDIM of the array failed and the program went on
+                    _ => Err(RuntimeError::SubscriptOutOfRange),
                 }
             }
             Path::Property(parent_path, property_name) => {
@@ -311,7 +312,8 @@ impl Context {
                         let int_indices: Vec<i32> = indices.try_cast()?;
                         v_arr.get_element(&int_indices).map_err(RuntimeError::from)
                     }
-                    _ => panic!("Expected array"),
+                    // the DIM or REDIM of the array failed and the program went on
+                    _ => Err(RuntimeError::SubscriptOutOfRange),
                 }
             }
             Path::Property(parent_path, property_name) => {
